@@ -7,7 +7,9 @@ PROPS = ["c20_published", "c20_published_sites", "c20_site_verdict_needed", "c20
          "c20_roundtrip", "c20_expire", "c20_expire_only_old", "c20_history", "c20_loop_request", "c20_loop_saved",
          "c20_old_aws_refuted", "c20_old_roundtrip_refuted", "c20_old_expire_refuted",
          "c20_stalled_subscriber", "c20_waiting_fanout_refuted", "c20_save_atomic", "c20_saves_last_renamed",
-         "c20_backup_rename_refuted", "c20_startup_name_only", "c20_startup_leftover"]
+         "c20_backup_rename_refuted", "c20_startup_name_only", "c20_startup_leftover",
+         "c20_issue_delivered_churn", "c20_count_keyed_table_refuted",
+         "c20_read_pure", "c20_history_reader_independent", "c20_mutating_reader_refuted"]
 
 TRUSTED = [
     "encoding/gob and bufio between saveEvents and loadEvents (run for real on every save/reload; the model has 'a complete document of generation g' or 'something the decoder rejects'); Dominator fsutil.CreateRenamingWriter/Close is modelled as its list of file operations (open f~, write, fsync, close, rename, remove) and run for real with injected faults; the file system itself is names -> contents with atomic rename (no directory fsync, no delayed allocation)",
@@ -17,6 +19,8 @@ TRUSTED = [
     "the recorder harness sets CreateTime of the event just recorded (recordEvent stamps time.Now() itself); expiry and load read the real clock",
     "tools/extract c20.go: signing-site table (handler reachability by name, lexical order of publish and response) and notifier send table",
     "fake STS endpoint in front of the cloud-role path",
+    "subscriber churn (harness/kmd/c20k.go): the instant a new connection is registered is taken to be just before the first event it is handed (settle publications are made until it is handed one); a disconnect is complete when ServeHTTP has returned; a connection that has not been handed an event after 2 s (25 ms once four such waits have run out) is not waited for again before the end of its history",
+    "readers of the history (harness/httpd/c20h.go): routes, parameter names and candidate values come from a syntactic harvest of the eventmon/httpd sources (go/parser at run time: Handle/HandleFunc arguments; FormValue / PostFormValue / Query().Get / Form / PostForm / Header accessors; token-like string literals); the handlers are reached through http.DefaultServeMux after one StartServer(0, ...) whose *EventRecorder is a harness-made value pointed at the recorder under test before every request; a reader is modelled by its effect on the read-out it is handed (any function) — that the tree's readers are the httpd handlers (the only senders on RequestEventsChannel) is by grep, not proved",
 ]
 
 def corr(ctx, res, name, label, idxfile):
@@ -124,5 +128,5 @@ def run(ctx):
                           "property predicate evaluated in Coq on the observed streams: every operation returned, every healthy subscriber was handed exactly the published sequence, a stalled one a subsequence of it")
     ctx.assumptions = ["clock readings of one recorder never go backwards (hypothesis `monotone` of c20_history); the wall clock is later than 1970-02-01 (no uint64 wrap of now-31d)",
                        "subscriber identity: a detached channel stays in the model's list with live=false instead of being deleted from the map"]
-    return ctx.finish("bin/build-coq; coqc Audit_Props_C20/Obl_C20/CasesC20/CasesC20R; go test -overlay TestVerif_C20 (cmd/keymasterd) TestVerif_C20R (eventmon/eventrecorder)",
+    return ctx.finish("bin/build-coq; coqc Audit_Props_C20/Obl_C20/CasesC20/CasesC20R; go test -overlay TestVerif_C20 TestVerif_C20S (cmd/keymasterd) TestVerif_C20R (eventmon/eventrecorder) TestVerif_C20H (eventmon/httpd); coqc CasesC20S/K/L/F/H",
                       COMMON_TRUSTED + TRUSTED)
